@@ -78,7 +78,7 @@ def main():
             dst = os.path.join(VERIF, "seeded", a.keep_as)
             os.makedirs(dst, exist_ok=True)
             for f in ("patch.diff", "demo.py"):
-                if os.path.exists(os.path.join(mdir, f)):
+                if os.path.exists(os.path.join(mdir, f)) and os.path.abspath(mdir) != os.path.abspath(dst):
                     shutil.copy(os.path.join(mdir, f), os.path.join(dst, f))
             meta2 = dict(meta)
             meta2["validated"] = {k: v for k, v in report.items() if k not in ("mutant",)}
